@@ -1306,6 +1306,14 @@ func dov(s avro.Schema, g *GT, v reflect.Value, omit bool) (*Datum, bool) {
 			if v.IsNil() {
 				return nullD, true
 			}
+			if pe := g.Elem.under(); pe != nil && pe.Kind == "wrap" && pe.Wrap == "time" {
+				// a non-nil pointer is "everything else": even a pointer to the zero
+				// time is written as the non-null branch (and reads back as such)
+				if e, ok := expose(v.Elem()); ok {
+					t, _ := timeOf(e)
+					return some(dovTime(s.Union[oi], t))
+				}
+			}
 			return dov(s, g.Elem, v.Elem(), false)
 		case "wrap":
 			e, ok := expose(v)
@@ -1332,6 +1340,9 @@ func dov(s avro.Schema, g *GT, v reflect.Value, omit bool) (*Datum, bool) {
 			case "nullbool":
 				return some(dov(s.Union[oi], mkGT("bool"), payload, false))
 			case "nullfloat":
+				if s.Union[oi].Type == "float" {
+					return some(&Datum{K: "float", F: uint64(math.Float32bits(float32(payload.Float())))}, true)
+				}
 				return some(dov(s.Union[oi], mkGT("float64"), payload, false))
 			case "nullstring":
 				return some(dov(s.Union[oi], mkGT("string"), payload, false))
@@ -1341,7 +1352,8 @@ func dov(s avro.Schema, g *GT, v reflect.Value, omit bool) (*Datum, bool) {
 			}
 			return nil, false
 		}
-		if omit && isEmptyValue(g, v) {
+		if omit && isEmptyValue(g, v) && !(g.under() != nil && g.under().Kind == "map" && !v.IsNil()) {
+			// the zero value of a map is the nil map; an empty non-nil map is not omitted
 			return nullD, true
 		}
 		return some(dov(s.Union[oi], g, v, false))
@@ -1353,6 +1365,38 @@ func dov(s avro.Schema, g *GT, v reflect.Value, omit bool) (*Datum, bool) {
 			return dov(s, g.Elem, reflect.Zero(v.Type().Elem()), false)
 		}
 		return dov(s, g.Elem, v.Elem(), false)
+	}
+	if g.Kind == "wrap" {
+		// a wrapper under a schema that is not a union: the payload is written as it is
+		e, ok := expose(v)
+		if !ok {
+			return nil, false
+		}
+		if g.Wrap == "time" {
+			t, _ := timeOf(e)
+			return dovTime(s, t)
+		}
+		_, payload, ok := wrapParts(g.Wrap, e)
+		if !ok {
+			return nil, false
+		}
+		switch g.Wrap {
+		case "nullint":
+			return dov(s, mkGT("int64"), payload, false)
+		case "nullbool":
+			return dov(s, mkGT("bool"), payload, false)
+		case "nullfloat":
+			if s.Type == "float" {
+				return &Datum{K: "float", F: uint64(math.Float32bits(float32(payload.Float())))}, true
+			}
+			return dov(s, mkGT("float64"), payload, false)
+		case "nullstring":
+			return dov(s, mkGT("string"), payload, false)
+		case "nulltime":
+			t, _ := timeOf(payload)
+			return dovTime(s, t)
+		}
+		return nil, false
 	}
 	switch s.Type {
 	case "null":
@@ -1452,9 +1496,37 @@ func dov(s avro.Schema, g *GT, v reflect.Value, omit bool) (*Datum, bool) {
 	return nil, false
 }
 
-func dovTime(s avro.Schema, t time.Time) (*Datum, bool) {
-	if s.Type != "string" {
-		return nil, false
+func floorDiv(a, b int64) int64 {
+	q := a / b
+	if a%b != 0 && (a%b < 0) != (b < 0) {
+		q--
 	}
-	return &Datum{K: "string", Bytes: []byte(t.Format(time.RFC3339Nano))}, true
+	return q
+}
+
+// dovTime: the datum a time denotes under string, long (plain = nanoseconds,
+// timestamp-millis, timestamp-micros) and int/date schemas.
+func dovTime(s avro.Schema, t time.Time) (*Datum, bool) {
+	lt := ""
+	if s.Object != nil {
+		lt = s.Object.LogicalType
+	}
+	switch s.Type {
+	case "string":
+		return &Datum{K: "string", Bytes: []byte(t.Format(time.RFC3339Nano))}, true
+	case "long":
+		sec, ns := t.Unix(), int64(t.Nanosecond())
+		switch lt {
+		case "timestamp-millis":
+			return &Datum{K: "long", I: sec*1000 + ns/1000000}, true
+		case "timestamp-micros":
+			return &Datum{K: "long", I: sec*1000000 + ns/1000}, true
+		}
+		return &Datum{K: "long", I: sec*1000000000 + ns}, true
+	case "int":
+		if lt == "date" {
+			return &Datum{K: "int", I: floorDiv(t.Unix(), 86400)}, true
+		}
+	}
+	return nil, false
 }
